@@ -298,6 +298,110 @@ theorem strRows_complete (lt : L → L → Bool) (c : Cfg L) (h : List (Call L))
     simpa using represents_run [] h _ (represents_init c)
   rw [strRows_labels, mem_sortLabels, Store.mem_keys_iff, isSome_of_represents R l]
 
+/-! ### the keys of the dictionary are distinct -/
+
+theorem Store.keys_set (s : Store L) (l : L) (e : Entry) :
+    (s.set l e).keys = if l ∈ s.keys then s.keys else s.keys ++ [l] := by
+  induction s with
+  | nil => simp [Store.set, Store.keys]
+  | cons p s ih =>
+    obtain ⟨k, x⟩ := p
+    by_cases hk : k = l
+    · subst hk
+      simp [Store.set, Store.keys]
+    · have hlk : ¬ l = k := fun h => hk h.symm
+      have ih' : List.map (fun x => x.1) (Store.set s l e) =
+          if l ∈ List.map (fun x => x.1) s then List.map (fun x => x.1) s else List.map (fun x => x.1) s ++ [l] := ih
+      simp only [Store.set, hk, if_false, Store.keys, List.map_cons, List.mem_cons, hlk, false_or, ih']
+      by_cases hm : l ∈ List.map (fun x => x.1) s <;> simp [hm]
+
+theorem Store.nodup_set (s : Store L) (l : L) (e : Entry) (h : s.keys.Nodup) : (s.set l e).keys.Nodup := by
+  rw [Store.keys_set]
+  by_cases hm : l ∈ s.keys
+  · simpa [hm] using h
+  · simp only [hm, if_false]
+    rw [List.nodup_append]
+    refine ⟨h, by simp, ?_⟩
+    intro a ha b hb
+    simp only [List.mem_singleton] at hb
+    subst hb
+    intro hab
+    subst hab
+    exact hm ha
+
+omit [DecidableEq L] in
+theorem nodup_foldl_set (f : Store L → L → Store L)
+    (hf : ∀ s l, s.keys.Nodup → (f s l).keys.Nodup) (ls : List L) (s : Store L) (h : s.keys.Nodup) :
+    (ls.foldl f s).keys.Nodup := by
+  induction ls generalizing s with
+  | nil => exact h
+  | cons l ls ih => exact ih _ (hf s l h)
+
+theorem nodup_startOne (s : Store L) (t : Nat) (l : L) (h : s.keys.Nodup) : (startOne s t l).keys.Nodup := by
+  unfold startOne
+  cases s.get l <;> exact Store.nodup_set _ _ _ h
+
+theorem nodup_updList (f : Entry → Entry) (ls : List L) (s : Store L) (h : s.keys.Nodup) :
+    (updList f s ls).1.keys.Nodup := by
+  induction ls generalizing s with
+  | nil => exact h
+  | cons l ls ih =>
+    unfold updList
+    cases hg : s.get l with
+    | none => exact h
+    | some e => exact ih _ (Store.nodup_set _ _ _ h)
+
+theorem nodup_init (labels : Arg L) (dflt all : L) : (Timer.init labels dflt all).store.keys.Nodup := by
+  unfold Timer.init
+  exact nodup_foldl_set _ (fun s l h => Store.nodup_set s l _ h) _ [] (by simp [Store.keys])
+
+theorem nodup_apply (T : Timer L) (c : Call L) (h : T.store.keys.Nodup) : (T.apply c).1.store.keys.Nodup := by
+  unfold Timer.apply
+  cases c.op with
+  | start => exact nodup_foldl_set _ (fun s l h => nodup_startOne s c.time l h) _ _ h
+  | stop => exact nodup_updList _ _ _ h
+  | reset => exact nodup_updList _ _ _ h
+
+theorem nodup_run (T : Timer L) (hs : List (Call L)) (h : T.store.keys.Nodup) : (T.run hs).store.keys.Nodup := by
+  induction hs generalizing T with
+  | nil => exact h
+  | cons c cs ih => exact ih _ (nodup_apply T c h)
+
+omit [DecidableEq L] in
+theorem nodup_insertSorted (lt : L → L → Bool) (x : L) (ls : List L) (h : ls.Nodup) (hx : x ∉ ls) :
+    (insertSorted lt x ls).Nodup := by
+  induction ls with
+  | nil => simp [insertSorted]
+  | cons y ys ih =>
+    rw [List.nodup_cons] at h
+    unfold insertSorted
+    by_cases hc : lt y x = true
+    · simp only [hc, if_true, List.nodup_cons]
+      refine ⟨?_, ih h.2 (fun hm => hx (by simp [hm]))⟩
+      rw [mem_insertSorted]
+      rintro (rfl | hm)
+      · exact hx (by simp)
+      · exact h.1 hm
+    · rw [if_neg hc, List.nodup_cons]
+      exact ⟨hx, List.nodup_cons.mpr h⟩
+
+omit [DecidableEq L] in
+theorem nodup_sortLabels (lt : L → L → Bool) (ls : List L) (h : ls.Nodup) : (sortLabels lt ls).Nodup := by
+  induction ls with
+  | nil => simp [sortLabels]
+  | cons x xs ih =>
+    rw [List.nodup_cons] at h
+    have : sortLabels lt (x :: xs) = insertSorted lt x (sortLabels lt xs) := rfl
+    rw [this]
+    exact nodup_insertSorted lt x _ (ih h.2) (fun hm => h.1 ((mem_sortLabels lt x xs).mp hm))
+
+/-- no label appears twice in the printed table -/
+theorem strRows_nodup (lt : L → L → Bool) (c : Cfg L) (h : List (Call L)) (now : Nat) :
+    ((((Timer.init c.init c.dflt c.all).run h).strRows lt now).map (·.label)).Nodup := by
+  rw [strRows_labels]
+  exact nodup_sortLabels lt _ (nodup_run _ h (nodup_init _ _ _))
+
+
 /-! ### `history(transpose=True)` -/
 
 theorem historyTranspose_nil {β : Type} : historyTranspose ([] : List (List β)) = [] := rfl
